@@ -195,7 +195,7 @@ def install_default_models(e):
     e.axioms.append(z3.And(sin(z3.RealVal(0)) == 0, cos(z3.RealVal(0)) == 1))
     e.opaque_handlers.update({"lock": h_lock, "rlock": h_lock, "logger": h_logger, "event": h_event,
                               "link_layer": h_link_layer, "callback": h_callback, "timer": h_timer,
-                              "thread": h_thread})
+                              "thread": h_thread, "cbf_buffer": make_keyed_map_handler(_fresh_timer)})
     e.external_handlers.update({
         "threading.Lock": x_lock, "threading.RLock": x_lock, "threading.Event": x_event, "threading.Timer": x_timer,
         "threading.Thread": x_thread,
@@ -205,3 +205,132 @@ def install_default_models(e):
         "random.uniform": x_uniform,
         "flexstack.utils.time_service:TimeService.time": x_time,
     })
+
+
+# ---------------------------------------------------------------------------------------------- symbolic-key maps
+def _map_entries(st, o):
+    return st.ghost.get("map:" + str(o.ident), ())
+
+
+def _map_find(e, st, o, key):
+    ents = _map_entries(st, o)
+    for i, (k, p, v) in enumerate(ents):
+        same = _fold_eq(e, st, k, key)
+        if same is None:
+            t = e.eq(st, k, key)
+            if e.valid(st.pc, t):
+                same = True
+            elif e.valid(st.pc, z3.Not(t)):
+                same = False
+        if same is True:
+            return i
+        if same is None:
+            raise Unsupported("keyed map: cannot decide whether two symbolic keys alias (state it in the contract)")
+    return None
+
+
+def _fold_eq(e, st, a, b):
+    if a is b:
+        return True
+    t = e.eq(st, a, b)
+    from .slicing import fold
+    t = fold(t)
+    if z3.is_true(t):
+        return True
+    if z3.is_false(t):
+        return False
+    # structurally identical terms?
+    try:
+        if z3.is_true(z3.simplify(t)):
+            return True
+    except Exception:
+        pass
+    return None
+
+
+def _map_set(st, o, idx, key, present, value):
+    ents = list(_map_entries(st, o))
+    if idx is None:
+        ents.append((key, present, value))
+    else:
+        ents[idx] = (key, present, value)
+    g = dict(st.ghost)
+    g["map:" + str(o.ident)] = tuple(ents)
+    return st._clone(ghost=g)
+
+
+def make_keyed_map_handler(fresh_value):
+    """dict whose keys are symbolic: only the entries touched on a path are tracked; an untouched key is present or
+    absent arbitrarily and holds an arbitrary value of the map's value kind"""
+    def lookup(e, st, o, key):
+        idx = _map_find(e, st, o, key)
+        if idx is None:
+            p = z3.Bool(e.fresh("map_has"))
+            st, v = fresh_value(e, st)
+            st = _map_set(st, o, None, key, p, v)
+            idx = len(_map_entries(st, o)) - 1
+        return st, idx
+
+    def h(e, st, o, name, args, kwargs):
+        e.used_assumptions.add("dicts keyed by symbolic keys (CBF buffer, LS maps) are tracked entry-wise; untouched keys are arbitrary")
+        if name == "__contains__":
+            st, idx = lookup(e, st, o, args[0])
+            yield st, _map_entries(st, o)[idx][1]
+        elif name in ("__getitem__", "get", "pop"):
+            st, idx = lookup(e, st, o, args[0])
+            k, p, v = _map_entries(st, o)[idx]
+            if e.feasible(st.pc, p):
+                s1 = st.assume(p)
+                if name == "pop":
+                    s1 = _map_set(s1, o, idx, k, z3.BoolVal(False), v)
+                yield s1, v
+            if e.feasible(st.pc, z3.Not(p)):
+                s2 = st.assume(z3.Not(p))
+                if name == "__getitem__" or (name == "pop" and len(args) < 2):
+                    yield s2, RaiseV(e.exc("KeyError", args[0]))
+                else:
+                    yield s2, (args[1] if len(args) > 1 else NONE)
+        elif name == "__setitem__":
+            idx = _map_find(e, st, o, args[0])
+            yield _map_set(st, o, idx, args[0], z3.BoolVal(True), args[1]), NONE
+        elif name == "__delitem__":
+            st, idx = lookup(e, st, o, args[0])
+            k, p, v = _map_entries(st, o)[idx]
+            if e.feasible(st.pc, p):
+                yield _map_set(st.assume(p), o, idx, k, z3.BoolVal(False), v), NONE
+            if e.feasible(st.pc, z3.Not(p)):
+                yield st.assume(z3.Not(p)), RaiseV(e.exc("KeyError", args[0]))
+        elif name == "items":
+            yield st, Opaque("keyed_items", None, {"map": o})
+        elif name == "setdefault":
+            st, idx = lookup(e, st, o, args[0])
+            k, p, v = _map_entries(st, o)[idx]
+            if e.feasible(st.pc, p):
+                yield st.assume(p), v
+            if e.feasible(st.pc, z3.Not(p)):
+                yield _map_set(st.assume(z3.Not(p)), o, idx, k, z3.BoolVal(True), args[1]), args[1]
+        else:
+            raise Unsupported(f"keyed map .{name}")
+    return h
+
+
+def _fresh_timer(e, st):
+    return st, Opaque("timer", _ident(e, "timer", "old_timer"), {"delay": None, "fn": None, "args": []})
+
+
+def keyed_map_filter(e, st, o, keep):
+    """new keyed map = {k: v for k, v in old.items() if keep(k, v)}; `keep` returns (state, Bool) alternatives.
+    Tracked entries get presence  p and keep ; untracked keys stay arbitrary."""
+    ents = _map_entries(st, o)
+    new = Opaque(o.typ, _ident(e, o.typ, "filtered_map"), o.data)
+    alts = [(st, [])]
+    for (k, p, v) in ents:
+        nxt = []
+        for s0, acc in alts:
+            for s1, c in keep(s0, k, v, p):
+                nxt.append((s1, acc + [(k, z3.And(p, c), v)]))
+        alts = nxt
+    for s0, acc in alts:
+        g = dict(s0.ghost)
+        g["map:" + str(new.ident)] = tuple(acc)
+        yield s0._clone(ghost=g), new
